@@ -36,6 +36,17 @@ type Exec struct {
 	snapCache map[string]string
 	boxInfo  map[string]boxRec
 	ctxPkg   *types.Package
+	defs     map[string]storeDef // heap version symbol -> its defining store
+	allocSyms map[string]bool
+	sliceBase map[string]string // slice symbol -> base term
+	rowDefs  map[string]storeDef // heap version symbol -> element store in the written row
+	sliceParts map[string][4]string
+	heapValT map[string]types.Type // heap array name -> Go type of the stored values
+	reveal   map[string]bool
+}
+
+type storeDef struct {
+	prev, ref, val string
 }
 
 type boxRec struct {
@@ -52,6 +63,7 @@ type retInfo struct {
 	guard string
 	val   Val
 	st    *State
+	pos   string
 }
 
 type deferred struct {
@@ -151,13 +163,13 @@ func (e *Exec) zeroOf(t types.Type) string {
 		}
 		return "0"
 	case *types.Slice:
-		return "nil_slice"
+		return "(mk_slice 0 0 0 0)"
 	case *types.Array:
 		return "((as const " + string(e.sortOf(t)) + ") " + e.zeroOf(u.Elem()) + ")"
 	case *types.Interface, *types.TypeParam:
 		return "anynil"
 	case *types.Struct:
-		return e.Out.Declare("zero$"+e.typeName(t), SInt)
+		return "0" // the zero struct token
 	}
 	return "0"
 }
@@ -173,7 +185,7 @@ func (e *Exec) rangeFact(x string, t types.Type, st *State) string {
 	case *types.Pointer, *types.Map, *types.Chan, *types.Signature:
 		return "(<= " + x + " " + e.top(st) + ")"
 	case *types.Slice:
-		return "(and (<= (s_base " + x + ") " + e.top(st) + ") (>= (s_off " + x + ") 0) (>= (s_len " + x + ") 0) (<= (s_len " + x + ") (s_cap " + x + ")) (=> (= (s_base " + x + ") 0) (= (s_cap " + x + ") 0)))"
+		return "(and (<= "+e.sbase(x)+" " + e.top(st) + ") (>= "+e.soff(x)+" 0) (>= "+e.slen(x)+" 0) (<= "+e.slen(x)+" "+e.scap(x)+") (=> (= "+e.sbase(x)+" 0) (= "+e.scap(x)+" 0)))"
 	}
 	return "true"
 }
@@ -188,7 +200,14 @@ func (e *Exec) get(st *State, name string, sort Sort) string {
 		e.heapSorts = map[string]Sort{}
 	}
 	e.heapSorts[name] = sort
-	return e.Out.Declare(name+"!0", sort)
+	if _, have := e.Out.declared[Sym(name+"!0")]; have {
+		return Sym(name + "!0")
+	}
+	sym := e.Out.Declare(name+"!0", sort)
+	if name != "$top" {
+		e.wellFormed(name, sym, e.entry)
+	}
+	return sym
 }
 
 func (e *Exec) set(st *State, name string, sort Sort, term string) string {
@@ -208,15 +227,96 @@ func (e *Exec) havoc(st *State, name string, sort Sort) string {
 	e.heapSorts[name] = sort
 	sym := e.Out.Fresh(name, sort)
 	st.H[name] = sym
+	if name != "$top" {
+		e.wellFormed(name, sym, st)
+	}
 	return sym
 }
 
 func (e *Exec) top(st *State) string { return e.get(st, "$top", SInt) }
 
 func (e *Exec) recordWrite(heap, ref string) {
+	// normalise "(s_base <slice symbol>)" of slices made in this function to their allocation symbol
+	if strings.HasPrefix(ref, "(s_base ") {
+		if b, ok := e.sliceBase[ref[len("(s_base "):len(ref)-1]]; ok {
+			ref = b
+		}
+	}
 	if e.writes != nil {
 		*e.writes = append(*e.writes, writeRec{heap, ref})
 	}
+}
+
+// write1 stores val at ref in a one-level heap array and remembers the definition for load forwarding.
+func (e *Exec) write1(st *State, name string, sort Sort, ref, val string) {
+	prev := e.get(st, name, sort)
+	sym := e.set(st, name, sort, Sto(prev, ref, val))
+	if e.defs == nil {
+		e.defs = map[string]storeDef{}
+	}
+	e.defs[sym] = storeDef{prev, ref, val}
+	e.recordWrite(name, ref)
+}
+
+// read1 reads ref from a heap version, forwarding a syntactically identical store.
+func (e *Exec) read1(heapSym, ref string) string {
+	for i := 0; i < 64; i++ {
+		d, ok := e.defs[heapSym]
+		if !ok {
+			break
+		}
+		if _, live := e.Out.declared[heapSym]; !live {
+			break
+		}
+		if d.ref == ref {
+			return d.val
+		}
+		// only skip stores to provably different references (distinct allocation symbols / numerals)
+		if !e.distinctRefs(d.ref, ref) {
+			break
+		}
+		heapSym = d.prev
+	}
+	return Sel(heapSym, ref)
+}
+
+func (e *Exec) distinctRefs(a, b string) bool {
+	if a == b {
+		return false
+	}
+	isNum := func(x string) bool {
+		if x == "" {
+			return false
+		}
+		for _, c := range x {
+			if c < '0' || c > '9' {
+				return strings.HasPrefix(x, "(- ") && len(x) > 4
+			}
+		}
+		return true
+	}
+	if isNum(a) && isNum(b) {
+		return true
+	}
+	if e.allocSyms[a] && e.allocSyms[b] {
+		return true
+	}
+	if (e.allocSyms[a] && isNum(b) && strings.HasPrefix(b, "(- ")) || (e.allocSyms[b] && isNum(a) && strings.HasPrefix(a, "(- ")) {
+		return true // fresh allocations are positive, global bases negative
+	}
+	return false
+}
+
+// read2 reads element idx of row base, forwarding a syntactically identical element store.
+func (e *Exec) read2(heapSym, base, idx string) string {
+	if d, ok := e.defs[heapSym]; ok && d.ref == base {
+		if rd, ok := e.rowDefs[heapSym]; ok && rd.ref == idx {
+			if _, live := e.Out.declared[heapSym]; live {
+				return rd.val
+			}
+		}
+	}
+	return Sel(e.read1(heapSym, base), idx)
 }
 
 // alloc returns a fresh reference and bumps $top.
@@ -224,6 +324,10 @@ func (e *Exec) alloc(st *State) string {
 	t := e.top(st)
 	r := e.Out.Define(e.Out.FreshName("ref"), SInt, "(+ "+t+" 1)")
 	e.set(st, "$top", SInt, r)
+	if e.allocSyms == nil {
+		e.allocSyms = map[string]bool{}
+	}
+	e.allocSyms[r] = true
 	return r
 }
 
@@ -231,15 +335,67 @@ func (e *Exec) fieldHeap(structT types.Type, idx int) (string, Sort, types.Type)
 	st := structT.Underlying().(*types.Struct)
 	f := st.Field(idx)
 	name := "H$" + e.typeName(structT) + "." + f.Name()
+	e.noteHeapT(name, f.Type())
 	return name, ArrSort(SInt, e.sortOf(f.Type())), f.Type()
 }
 
+func (e *Exec) noteHeapT(name string, t types.Type) {
+	if e.heapValT == nil {
+		e.heapValT = map[string]types.Type{}
+	}
+	e.heapValT[name] = t
+}
+
 func (e *Exec) cellHeap(t types.Type) (string, Sort) {
+	e.noteHeapT("C$"+e.typeName(t), t)
 	return "C$" + e.typeName(t), ArrSort(SInt, e.sortOf(t))
 }
 
 func (e *Exec) elemHeap(t types.Type) (string, Sort) {
+	e.noteHeapT("E$"+e.typeName(t), t)
 	return "E$" + e.typeName(t), ArrSort(SInt, ArrSort(SInt, e.sortOf(t)))
+}
+
+// wellFormed asserts the typing invariant of a freshly introduced heap version: every stored reference or slice
+// points at or below the current allocation top (and slices have consistent headers).
+func (e *Exec) wellFormed(name, sym string, st *State) {
+	t, ok := e.heapValT[name]
+	if !ok {
+		return
+	}
+	guardTop := true
+	switch u := t.Underlying().(type) {
+	case *types.Pointer, *types.Map, *types.Slice, *types.Chan:
+	case *types.Basic:
+		if u.Info()&types.IsInteger == 0 {
+			return
+		}
+		guardTop = false // integer ranges hold for every cell
+	default:
+		return
+	}
+	if !guardTop {
+		r := e.Out.FreshName("wf$r")
+		if strings.HasPrefix(name, "E$") {
+			i := e.Out.FreshName("wf$i")
+			v := Sel(Sel(sym, r), i)
+			e.Out.Assert("(forall ((" + r + " Int) (" + i + " Int)) (! " + e.rangeFact(v, t, st) + " :pattern (" + v + ")))")
+			return
+		}
+		v := Sel(sym, r)
+		e.Out.Assert("(forall ((" + r + " Int)) (! " + e.rangeFact(v, t, st) + " :pattern (" + v + ")))")
+		return
+	}
+	r := e.Out.FreshName("wf$r")
+	if strings.HasPrefix(name, "E$") {
+		i := e.Out.FreshName("wf$i")
+		v := Sel(Sel(sym, r), i)
+		// only allocated rows are constrained: unallocated space stands for whatever a callee allocates later
+		e.Out.Assert("(forall ((" + r + " Int) (" + i + " Int)) (! (=> (<= " + r + " " + e.top(st) + ") " + e.rangeFact(v, t, st) + ") :pattern (" + v + ")))")
+		return
+	}
+	v := Sel(sym, r)
+	e.Out.Assert("(forall ((" + r + " Int)) (! (=> (<= " + r + " " + e.top(st) + ") " + e.rangeFact(v, t, st) + ") :pattern (" + v + ")))")
 }
 
 func (e *Exec) mapHeaps(m *types.Map) (dom, val string, ds, vs Sort) {
@@ -252,11 +408,11 @@ func (e *Exec) mapHeaps(m *types.Map) (dom, val string, ds, vs Sort) {
 func (e *Exec) loadAddr(a *Addr, st *State) string {
 	switch a.Kind {
 	case "field", "cell":
-		return Sel(e.get(st, a.Heap, a.HS), a.Ref)
+		return e.read1(e.get(st, a.Heap, a.HS), a.Ref)
 	case "elem":
-		return Sel(Sel(e.get(st, a.Heap, a.HS), a.Ref), a.Idx)
+		return e.read2(e.get(st, a.Heap, a.HS), a.Ref, a.Idx)
 	case "row":
-		return Sel(e.get(st, a.Heap, a.HS), a.Ref)
+		return e.read1(e.get(st, a.Heap, a.HS), a.Ref)
 	case "global":
 		return e.get(st, a.Heap, a.HS)
 	case "arr":
@@ -269,13 +425,15 @@ func (e *Exec) loadAddr(a *Addr, st *State) string {
 func (e *Exec) storeAddr(a *Addr, st *State, v string) {
 	switch a.Kind {
 	case "field", "cell", "row":
-		h := e.get(st, a.Heap, a.HS)
-		e.set(st, a.Heap, a.HS, Sto(h, a.Ref, v))
-		e.recordWrite(a.Heap, a.Ref)
+		e.write1(st, a.Heap, a.HS, a.Ref, v)
 	case "elem":
 		h := e.get(st, a.Heap, a.HS)
-		e.set(st, a.Heap, a.HS, Sto(h, a.Ref, Sto(Sel(h, a.Ref), a.Idx, v)))
-		e.recordWrite(a.Heap, a.Ref)
+		row := e.read1(h, a.Ref)
+		e.write1(st, a.Heap, a.HS, a.Ref, Sto(row, a.Idx, v))
+		if e.rowDefs == nil {
+			e.rowDefs = map[string]storeDef{}
+		}
+		e.rowDefs[st.H[a.Heap]] = storeDef{row, a.Idx, v}
 	case "global":
 		e.set(st, a.Heap, a.HS, v)
 		e.recordWrite(a.Heap, "")
@@ -320,6 +478,9 @@ func (e *Exec) VerifyFunction(fn *ssa.Function, ctr *Contract) (err error) {
 		}
 	}()
 	e.Top, e.Ctr = fn, ctr
+	if ctr != nil {
+		e.reveal = ctr.Reveal
+	}
 	e.siteCount = map[string]int{}
 	e.boxed = map[string]bool{}
 	e.entry = &State{H: map[string]string{}}
@@ -351,11 +512,29 @@ func (e *Exec) VerifyFunction(fn *ssa.Function, ctr *Contract) (err error) {
 	// vacuity: some return must be reachable
 	e.Out.AddObl(&Obligation{Name: FuncKey(fn) + "/cover:return", Func: FuncKey(fn), Kind: "cover", Label: "return", Formula: Not(exitGuard), Expect: "sat", Text: "some return is reachable under the preconditions"})
 	if ctr != nil {
-		env2 := e.envForFunc(fr, exitSt, e.entry, &res)
-		for _, c := range ctr.Ensures {
-			t := e.evalBool(c, env2)
-			e.Out.AddObl(&Obligation{Name: FuncKey(fn) + "/ensures:" + c.Label, Func: FuncKey(fn), Kind: "ensures", Label: c.Label, Text: c.Text, Src: c.Src,
-				Formula: Imp(exitGuard, t), Inputs: e.obsInputs(fr), Obs: e.lastObs})
+		// one obligation per (return statement, ensures clause): the solver never has to split over return paths
+		_ = res
+		for k, r := range fr.rets {
+			rv := r.val
+			env2 := e.envForFunc(fr, r.st, e.entry, &rv)
+			suffix := ""
+			if len(fr.rets) > 1 {
+				suffix = fmt.Sprintf("@r%d", k+1)
+			}
+			for _, c := range ctr.ExitHints {
+				t := e.evalBool(c, env2)
+				e.Out.AddObl(&Obligation{Name: FuncKey(fn) + "/hint:exit:" + c.Label + suffix, Func: FuncKey(fn), Kind: "hint", Label: c.Label, Text: c.Text, Src: c.Src,
+					Formula: Imp(r.guard, t), Inputs: e.obsInputs(fr), Obs: e.lastObs})
+				e.assume(r.guard, t)
+			}
+			for _, c := range ctr.Ensures {
+				t := e.evalBool(c, env2)
+				e.Out.AddObl(&Obligation{Name: FuncKey(fn) + "/ensures:" + c.Label + suffix, Func: FuncKey(fn), Kind: "ensures", Label: c.Label, Text: c.Text + "   [return at " + r.pos + "]", Src: c.Src,
+					Formula: Imp(r.guard, t), Inputs: e.obsInputs(fr), Obs: e.lastObs})
+				// goal-directed vacuity guard: the negation of the clause must not be provable as well
+				e.Out.AddObl(&Obligation{Name: FuncKey(fn) + "/canary:not-" + c.Label + suffix, Func: FuncKey(fn), Kind: "canary", Label: "not-" + c.Label, Text: "negation of ensures[" + c.Label + "] must not be provable on this return path (context consistency, goal-directed)",
+					Formula: Imp(r.guard, Not(t)), Expect: "sat"})
+			}
 		}
 		e.frameObligations(fr, exitSt, exitGuard, env)
 	}
@@ -750,26 +929,37 @@ func (e *Exec) enterLoop(fr *Frame, h *ssa.BasicBlock) (*State, string) {
 	mods := e.dryRun(fr, h, loopOrder, stEntry)
 	// havoc
 	st := stEntry.clone()
+	topEntry := e.top(stEntry)
 	for _, name := range sortedKeys(mods) {
-		refs := mods[name]
+		mi := mods[name]
 		sort := e.heapSorts[name]
 		if name == "$top" {
-			old := e.top(stEntry)
 			nt := e.havoc(st, "$top", SInt)
-			e.Out.Assert("(>= " + nt + " " + old + ")")
+			e.Out.Assert("(>= " + nt + " " + topEntry + ")")
 			continue
 		}
-		if refs != nil {
+		cur := e.get(stEntry, name, sort)
+		_, vs, _ := arrayParts(sort)
+		switch {
+		case mi.whole:
+			e.havoc(st, name, sort)
+		case mi.allocs:
+			// objects allocated inside the loop are written: everything that existed at loop entry and is not
+			// written through a loop-invariant reference keeps its value
+			nh := e.havoc(st, name, sort)
+			r := e.Out.FreshName("r")
+			conds := []string{"(<= " + r + " " + topEntry + ")"}
+			for _, ref := range mi.refs {
+				conds = append(conds, Not(Eq(r, ref)))
+			}
+			e.Out.Assert("(forall ((" + r + " Int)) (! (=> " + And(conds...) + " (= (select " + nh + " " + r + ") (select " + cur + " " + r + "))) :pattern ((select " + nh + " " + r + "))))")
+		default:
 			// row-wise havoc: only the listed (loop-invariant) references change
-			cur := e.get(stEntry, name, sort)
-			_, vs, _ := arrayParts(sort)
-			for _, r := range refs {
+			for _, r := range mi.refs {
 				cur = Sto(cur, r, e.Out.Fresh(name+"@row", vs))
 			}
 			e.set(st, name, sort, cur)
-			continue
 		}
-		e.havoc(st, name, sort)
 	}
 	gh := e.Out.Fresh(fmt.Sprintf("%sloophead%d", fr.prefix, ord), SBool)
 	e.Out.Assert(Imp(gh, gEntry))
@@ -786,7 +976,13 @@ func (e *Exec) enterLoop(fr *Frame, h *ssa.BasicBlock) (*State, string) {
 
 // dryRun symbolically executes the loop body once, discarding everything, and reports which state
 // components differ at the back edges. A non-nil slice lists loop-invariant references (row-wise havoc).
-func (e *Exec) dryRun(fr *Frame, h *ssa.BasicBlock, loopOrder []*ssa.BasicBlock, stEntry *State) map[string][]string {
+type modInfo struct {
+	refs   []string // loop-invariant references written
+	whole  bool     // written through references that are neither loop-invariant nor allocated inside the loop
+	allocs bool     // written at objects allocated inside the loop
+}
+
+func (e *Exec) dryRun(fr *Frame, h *ssa.BasicBlock, loopOrder []*ssa.BasicBlock, stEntry *State) map[string]*modInfo {
 	m := e.Out.Mark()
 	savedFresh := e.Out.fresh
 	savedVals := map[ssa.Value]Val{}
@@ -827,7 +1023,7 @@ func (e *Exec) dryRun(fr *Frame, h *ssa.BasicBlock, loopOrder []*ssa.BasicBlock,
 		}()
 		e.runBlocks(fr, loopOrder, h, stEntry, "true")
 	}()
-	mods := map[string][]string{}
+	mods := map[string]*modInfo{}
 	changed := map[string]bool{}
 	for _, p := range h.Preds {
 		if !isBackEdge(p, h) {
@@ -845,9 +1041,12 @@ func (e *Exec) dryRun(fr *Frame, h *ssa.BasicBlock, loopOrder []*ssa.BasicBlock,
 	}
 	fresh := e.Out.definedSince(m)
 	for k := range changed {
-		// row-wise refinement
-		var refs []string
-		ok := true
+		mi := &modInfo{}
+		mods[k] = mi
+		if _, isArr, _ := arrayPartsOK(e.heapSorts[k]); !isArr || strings.HasPrefix(k, "$") {
+			mi.whole = true
+			continue
+		}
 		seen := map[string]bool{}
 		any := false
 		for _, w := range writes {
@@ -856,29 +1055,30 @@ func (e *Exec) dryRun(fr *Frame, h *ssa.BasicBlock, loopOrder []*ssa.BasicBlock,
 			}
 			any = true
 			if w.ref == "" {
-				ok = false
+				mi.whole = true
 				break
 			}
-			for _, s := range symbolsIn(w.ref) {
-				if fresh[s] {
-					ok = false
+			if fresh[w.ref] && e.allocSyms[w.ref] {
+				mi.allocs = true
+				continue
+			}
+			inv := true
+			for _, sy := range symbolsIn(w.ref) {
+				if fresh[sy] {
+					inv = false
 				}
 			}
-			if !ok {
+			if !inv {
+				mi.whole = true
 				break
 			}
 			if !seen[w.ref] {
 				seen[w.ref] = true
-				refs = append(refs, w.ref)
+				mi.refs = append(mi.refs, w.ref)
 			}
 		}
-		if _, isArr, _ := arrayPartsOK(e.heapSorts[k]); !isArr {
-			ok = false
-		}
-		if ok && any && len(refs) <= 4 {
-			mods[k] = refs
-		} else {
-			mods[k] = nil
+		if !any || len(mi.refs) > 6 {
+			mi.whole = true
 		}
 	}
 	// restore
@@ -899,6 +1099,7 @@ func (e *Exec) dryRun(fr *Frame, h *ssa.BasicBlock, loopOrder []*ssa.BasicBlock,
 		}
 	}
 	// entry versions referenced by mods might have been declared inside the rolled-back region
+	e.top(stEntry)
 	for k := range mods {
 		e.get(stEntry, k, e.heapSorts[k])
 	}
@@ -932,6 +1133,12 @@ func (e *Exec) backEdge(fr *Frame, p, h *ssa.BasicBlock) {
 		fr.vals[phi] = e.val(fr, phi.Edges[idx])
 	}
 	env := e.envForLoop(fr, h, fr.out[p])
+	for _, c := range spec.Hints {
+		t := e.evalBool(c, env)
+		e.Out.AddObl(&Obligation{Name: fmt.Sprintf("%s/hint:loop%d:%s", FuncKey(fr.fn), ord, c.Label), Func: FuncKey(fr.fn), Kind: "hint", Label: c.Label, Text: c.Text, Src: c.Src,
+			Formula: Imp(g, t), Inputs: e.obsInputs(fr), Obs: e.lastObs})
+		e.assume(g, t)
+	}
 	for _, c := range spec.Invariants {
 		t := e.evalBool(c, env)
 		e.Out.AddObl(&Obligation{Name: fmt.Sprintf("%s/inv-pres:loop%d:%s", FuncKey(fr.fn), ord, c.Label), Func: FuncKey(fr.fn), Kind: "inv-pres", Label: c.Label, Text: c.Text, Src: c.Src,
@@ -1049,6 +1256,28 @@ func (e *Exec) globalBase(name string) string {
 func (e *Exec) define(fr *Frame, v ssa.Value, term string) Val {
 	s := e.sortOf(v.Type())
 	sym := e.Out.Define(fr.prefix+v.Name(), s, term)
+	if s == SSlice {
+		if p, ok := e.sparts(term); ok {
+			if e.sliceParts == nil {
+				e.sliceParts = map[string][4]string{}
+			}
+			e.sliceParts[sym] = p
+		}
+	}
+	x := Val{T: sym, S: s, Ty: v.Type()}
+	fr.vals[v] = x
+	return x
+}
+
+// defineOpaque introduces the value as a constant constrained by an equality (instead of a macro), so that the
+// solver keeps it atomic inside index terms and triggers match on it.
+func (e *Exec) defineOpaque(fr *Frame, v ssa.Value, term string) Val {
+	s := e.sortOf(v.Type())
+	sym := e.Out.Declare(fr.prefix+v.Name(), s)
+	if _, dup := fr.vals[v]; dup {
+		sym = e.Out.Fresh(fr.prefix+v.Name(), s)
+	}
+	e.Out.Assert(Eq(sym, term))
 	x := Val{T: sym, S: s, Ty: v.Type()}
 	fr.vals[v] = x
 	return x
@@ -1080,4 +1309,108 @@ func shortPos(p token.Position) string {
 		f = f[i+1:]
 	}
 	return fmt.Sprintf("%s:%d:%d", f, p.Line, p.Column)
+}
+
+// ---- slice component access with syntactic simplification ----
+
+func (e *Exec) sparts(t string) ([4]string, bool) {
+	if p, ok := e.sliceParts[t]; ok {
+		if _, live := e.Out.declared[t]; live {
+			return p, true
+		}
+	}
+	if strings.HasPrefix(t, "(mk_slice ") {
+		// split the four arguments
+		body := t[len("(mk_slice ") : len(t)-1]
+		var parts []string
+		depth, start := 0, 0
+		for i := 0; i < len(body); i++ {
+			switch body[i] {
+			case '(':
+				depth++
+			case ')':
+				depth--
+			case '|':
+				j := strings.IndexByte(body[i+1:], '|')
+				if j >= 0 {
+					i += j + 1
+				}
+			case ' ':
+				if depth == 0 {
+					parts = append(parts, body[start:i])
+					start = i + 1
+				}
+			}
+		}
+		parts = append(parts, body[start:])
+		if len(parts) == 4 {
+			return [4]string{parts[0], parts[1], parts[2], parts[3]}, true
+		}
+	}
+	return [4]string{}, false
+}
+
+func (e *Exec) sbase(t string) string {
+	if p, ok := e.sparts(t); ok {
+		return p[0]
+	}
+	return "(s_base " + t + ")"
+}
+func (e *Exec) soff(t string) string {
+	if p, ok := e.sparts(t); ok {
+		return p[1]
+	}
+	return "(s_off " + t + ")"
+}
+func (e *Exec) slen(t string) string {
+	if p, ok := e.sparts(t); ok {
+		return p[2]
+	}
+	return "(s_len " + t + ")"
+}
+func (e *Exec) scap(t string) string {
+	if p, ok := e.sparts(t); ok {
+		return p[3]
+	}
+	return "(s_cap " + t + ")"
+}
+
+// elemIdx is the absolute index of element i of a slice with offset off. A symbolic offset goes through the
+// uninterpreted 'idx' (axiom idx(o,i) = o+i) so that quantifier triggers never contain interpreted arithmetic.
+func elemIdx(off, i string) string {
+	if off == "0" {
+		return i
+	}
+	return "(idx " + off + " " + i + ")"
+}
+
+// addInt builds (+ a b) with constant folding of zero.
+func addInt(a, b string) string {
+	if a == "0" {
+		return b
+	}
+	if b == "0" {
+		return a
+	}
+	return "(+ " + a + " " + b + ")"
+}
+
+func subInt(a, b string) string {
+	if b == "0" {
+		return a
+	}
+	if a == b {
+		return "0"
+	}
+	return "(- " + a + " " + b + ")"
+}
+
+// defSlice defines a slice value and records its components.
+func (e *Exec) defSlice(fr *Frame, x ssa.Value, base, off, ln, cp string) Val {
+	v := e.define(fr, x, "(mk_slice "+base+" "+off+" "+ln+" "+cp+")")
+	if e.sliceParts == nil {
+		e.sliceParts = map[string][4]string{}
+	}
+	e.sliceParts[v.T] = [4]string{base, off, ln, cp}
+	return v
 }
